@@ -13,7 +13,7 @@ RISKY = {"Minus", "Div", "Mod", "Exp", "Mul2", "ShiftLeft", "ShiftRight", "GetBi
 class Cfg:
     def __init__(self, mode="app", version=10, max_depth=4, max_stmts=5, subs=0, effects=True, loops=True,
                  exits=True, dyn=False, wide=False, notes=False, breaks=True, byref=True, req_slots=True, recursive=False,
-                 call_bias=0.0, control_in_operand=False):
+                 call_bias=0.0, control_in_operand=False, byref_p=0.2):
         self.__dict__.update(locals())
         del self.__dict__["self"]
 
@@ -147,6 +147,12 @@ class G:
                 else:
                     args.append(("op", "Minus", [("param", 0), ("int", 1)]))
                 continue
+            if kind == "ref" and self.cur_sub is not None and self.r.random() < 0.7:
+                fwd = [i for i, (k2, v2) in enumerate(self.cur_sub.params) if k2 == "ref" and v2.ttype == pv.ttype]
+                if fwd:
+                    self.note("forward-ref-param")
+                    args.append(("refparam", self.r.choice(fwd)))
+                    continue
             if kind == "ref":
                 cands = [v for v in self.visible() if v.ttype == pv.ttype and v.uid in self.assigned]
                 if not cands:
@@ -174,6 +180,12 @@ class G:
         cfg = self.cfg
         if d <= 0:
             c = c * 0.45
+        if c < 0.22 and self.cur_sub is not None and r.random() < 0.35:
+            refs = [i for i, (k2, _v2) in enumerate(self.cur_sub.params) if k2 == "ref"]
+            if refs:
+                j = r.choice(refs)
+                self.note("store-through-ref")
+                return ("pstore", j, self.expr(self.cur_sub.params[j][1].ttype, d))
         if c < 0.22:
             cands = [v for v in self.visible() if v.uid not in self.counters]
             if not cands or r.random() < 0.2:
@@ -229,6 +241,10 @@ class G:
         if c < 0.86 and self.in_loop and cfg.breaks and ctl_ok:
             self.note("break/continue")
             inner = ("break",) if r.random() < 0.5 else ("continue",)
+            if r.random() < 0.25:
+                # bare (unconditional) Break/Continue, possibly the last statement of the body
+                self.note("bare-break/continue")
+                return inner
             return ("if", self.expr(U, d - 1), inner, None)
         if c < 0.9 and cfg.exits and ctl_ok:
             self.note("early-exit")
@@ -285,7 +301,7 @@ class G:
         if self.cfg.recursive:
             params.append(("val", Var(U)))
         for _ in range(nparams):
-            kind = "ref" if (self.cfg.byref and r.random() < 0.2) else "val"
+            kind = "ref" if (self.cfg.byref and r.random() < self.cfg.byref_p) else "val"
             params.append((kind, Var(r.choice([U, U, B]))))
         ret = r.choice([N, U, U, B])
         s = Sub(sid, r.choice(["f", "g", "helper", "my_sub", "x1"]) + str(sid), params, ret)
